@@ -556,7 +556,13 @@ func (s *state) append(c *migrate.Change) {
 func alterable(modify *schema.ModifyTable) bool {
 	for _, change := range modify.Changes {
 		switch change := change.(type) {
-		case *schema.RenameColumn, *schema.RenameIndex, *schema.DropIndex, *schema.AddIndex:
+		case *schema.RenameColumn, *schema.RenameIndex, *schema.AddIndex:
+		case *schema.DropIndex:
+			// Indexes that were created by UNIQUE constraints (sqlite_autoindex_*) cannot be
+			// dropped using DROP INDEX. The table should be re-created without the constraint.
+			if o := (IndexOrigin{}); strings.HasPrefix(change.I.Name, "sqlite_autoindex") || sqlx.Has(change.I.Attrs, &o) && o.O == "u" {
+				return false
+			}
 		case *schema.AddColumn:
 			if len(change.C.Indexes) > 0 || len(change.C.ForeignKeys) > 0 {
 				return false
